@@ -2556,6 +2556,12 @@ FROM (
             source_ids = list(cond_ds.get_identifiers_names())
             bool_measures = list(cond_ds.get_measures_names())
             cond_expr = f"{alias}.{quote_name(bool_measures[0])}" if bool_measures else "TRUE"
+        elif isinstance(node.condition, AST.VarID) and source_node is node.condition:
+            # The condition is a boolean dataset itself: test its (single) boolean measure
+            source_sql = self._get_dataset_sql(source_node)
+            source_ids = list(source_ds.get_identifiers_names())
+            bool_measures = list(source_ds.get_measures_names())
+            cond_expr = f"{alias}.{quote_name(bool_measures[0])}" if bool_measures else "TRUE"
         else:
             source_sql = self._get_dataset_sql(source_node)
             source_ids = list(source_ds.get_identifiers_names())
